@@ -138,6 +138,8 @@ type Unit struct {
 	wantCallCovers bool
 	curCallArgs []ssa.Value
 	setofMemo map[string]string
+	pendingClosure *ssa.Function
+	pendingBinds []Val
 	elemAxiom bool
 	preOnly bool // executing a `go` statement: a callee under contract is only checked for its precondition
 	selfRef string // identity of the function value when a closure is verified standalone
